@@ -205,6 +205,64 @@ def resIrr (res : Resolution Rat) (autoV : Rat) (g : Geom Rat) : Bool :=
   | some r => decide (0 < r) && !(ringsAllRational r g)
   | none => false
 
+/-- stand-in projections of the chop / projected_lon streams: `fakeProjSwap` is exact on every double
+(sign, swap, powers of two only); `fakeProjLat` fails by latitude (both coordinates for `y > 60`, x only
+for `y < -70`) -/
+def fakeProjSwap (_s _t : C01.CrsRec) (p : Pt Rat) : Pt Rat := ⟨-2 * p.y, p.x / 2⟩
+
+def fakeProjLat (s t : C01.CrsRec) (p : Pt Rat) : Pt Rat :=
+  if 60 < p.y then ⟨nanV, nanV⟩ else if p.y < -70 then ⟨nanV, (fakeProj s t p).y⟩ else fakeProj s t p
+
+def parseGJIn? (toks : List String) : Option (GJIn Rat) :=
+  match toks with
+  | ["X"] => some .noType
+  | "FC" :: n :: rest => do
+    let n ← parseNat? n
+    let (gs, rest) ← (if n = 0 then some ([], rest) else parseGeoms 64 n rest)
+    if rest ≠ [] then none else pure (.featureCollection gs)
+  | "F" :: rest => do
+    let (g, rest) ← parseGeom 64 rest
+    if rest ≠ [] then none else pure (.feature g)
+  | "G" :: rest => do
+    let (g, rest) ← parseGeom 64 rest
+    if rest ≠ [] then none else pure (.geometry g)
+  | _ => none
+
+def run3 (args : List String) : Option String :=
+  match args with
+  | ["projlon", t4326, crs, lon, lat0, lat1, step] => do
+    let t4 ← C01.Drv.parseTag? t4326
+    let t4 ← t4
+    let crs ← C01.Drv.parseTag? crs
+    let lon ← parseRat? lon; let lat0 ← parseRat? lat0; let lat1 ← parseRat? lat1; let step ← parseRat? step
+    match crs with
+    | none => pure (ErrKind.valueError).toStr
+    | some c => pure ("L " ++ fmtPts (projectedLon (fakeProjLat t4 c) finitePt lon (arangeRat lat0 lat1 step)))
+  | "chop" :: crs :: hit :: n :: toks => do
+    let crs ← C01.Drv.parseTag? crs
+    let hit ← parseBool? hit
+    let n ← parseNat? n
+    let (pieces, rest) ← (if n = 0 then some ([], toks) else parseGeoms 64 n toks)
+    let (g, rest) ← parseGeom 64 rest
+    if rest ≠ [] then none
+    else pure (fmtRes7 geomStr (chopFull crs [] (fun _ _ => hit) (fun _ _ => pieces) g))
+  | "tocrschop" :: variant :: src :: dst :: geo :: wd :: eps :: hit :: n :: toks => do
+    let src ← C01.Drv.parseTag? src; let dst ← C01.Drv.parseTag? dst
+    let geo ← parseBool? geo; let wd ← parseBool? wd; let eps ← parseRat? eps
+    let hit ← parseBool? hit
+    let n ← parseNat? n
+    let (pieces, rest) ← (if n = 0 then some ([], toks) else parseGeoms 64 n toks)
+    let (g, rest) ← parseGeom 64 rest
+    if rest ≠ [] then none
+    else
+      let r := (if variant = "F" then toCrsAllAsFound else toCrsAll) envRat fakeProjSwap (fun _ => 0) (fun _ => hit)
+        (fun _ => pieces) (fun _ => true) id (fun _ => true) (180 : Rat) eps ⟨src, g⟩ dst geo .none wd false
+      pure (fmtRes7 (fun (x : C01.Tag × Filtered Rat) => C01.Drv.fmtTag x.1 ++ " " ++ fmtFiltered x.2) r)
+  | "gjshape" :: toks => do
+    let i ← parseGJIn? toks
+    pure (fmtRes7 geomStr (geojsonToShape i))
+  | _ => none
+
 mutual
 def fmtGJ : GJ Rat → List String
   | .feature f => ["F", fmtFiltered f]
@@ -300,7 +358,7 @@ def run2 (args : List String) : Option String :=
     let t4326 ← t4326
     let cx ← parseRat? cx; let cy ← parseRat? cy
     pure (fmtRes fmtRat (midLongitude envRat fakeProj (fun _ => 0) (fun _ => ⟨cx, cy⟩) t4326 ⟨src, .point ⟨0, 0⟩⟩))
-  | _ => none
+  | other => run3 other
 
 def run (args : List String) : Option String :=
   match args with
